@@ -288,15 +288,22 @@ fn slice_matrix<B: vm_memory::bitmap::BitmapSlice>(s: &VolatileSlice<B>, cname: 
             // buffers of zero-sized elements can be as long as the address space allows
             // (`vec![x; usize::MAX]` of a zero-sized type allocates nothing)
             for (ln, blen) in [("isize::MAX", isize::MAX as usize), ("isize::MAX+1", isize::MAX as usize + 1), ("usize::MAX", usize::MAX)] {
-                cell(&format!("slice/{}/copy_to-zst-huge-buf-{}/{}", cname, ln, $tn), true, frame, dirty, || {
-                    let mut buf = vec![<$T>::default(); blen];
-                    let _ = s.copy_to(&mut buf);
-                    Ok(())
-                });
-                cell(&format!("slice/{}/copy_from-zst-huge-buf-{}/{}", cname, ln, $tn), true, frame, dirty, || {
-                    let buf = vec![<$T>::default(); blen];
-                    s.copy_from(&buf);
-                    Ok(())
+                // (in a forked child with a CPU-time limit: a no-op that walks 2^63 elements never ends)
+                cell(&format!("slice/{}/copy_to+copy_from-zst-huge-buf-{}/{}", cname, ln, $tn), true, frame, dirty, || {
+                    if cfg!(miri) {
+                        return Ok(());
+                    }
+                    match crate::common::fork::run(5, || {
+                        let mut buf = vec![<$T>::default(); blen];
+                        let _ = s.copy_to(&mut buf);
+                        s.copy_from(&buf);
+                        vec![]
+                    }) {
+                        crate::common::fork::Exit::Ok(_) => Ok(()),
+                        crate::common::fork::Exit::CpuLimit => Err("did not finish within 5 CPU-seconds".into()),
+                        crate::common::fork::Exit::Panic(p) => Err(format!("panicked: {}", p)),
+                        other => Err(format!("{:?}", other)),
+                    }
                 });
             }
             cell(&format!("slice/{}/copy_to-zst-empty-buf/{}", cname, $tn), true, frame, dirty, || {
